@@ -135,7 +135,30 @@ func (e *Engine) valid(st *State, g *Term) bool {
 	if g.IsTrue() {
 		return true
 	}
-	return !e.inc.Sat(append(append([]*Term{}, st.pc...), Not(g)))
+	if g.IsFalse() {
+		return false
+	}
+	// validity is monotone in the path condition: a positive answer stays true on every extension of the path
+	k := g.String()
+	if st.validCache[k] {
+		return true
+	}
+	if n, ok := st.invalidAt[k]; ok && n == len(st.pc) {
+		return false
+	}
+	v := !e.inc.Sat(append(append([]*Term{}, st.pc...), Not(g)))
+	if v {
+		if st.validCache == nil {
+			st.validCache = map[string]bool{}
+		}
+		st.validCache[k] = true
+	} else {
+		if st.invalidAt == nil {
+			st.invalidAt = map[string]int{}
+		}
+		st.invalidAt[k] = len(st.pc)
+	}
+	return v
 }
 
 func (e *Engine) bufOf(st *State, v Val) (*BufObj, int) {
@@ -185,7 +208,23 @@ func (e *Engine) sliceOfText(st *State, ps []Piece, str bool) SliceV {
 		l = ps[0].Len
 	} else {
 		l = Sym(fresh("textlen"), 64)
-		st.assumeT(And(SLe(BVu(textLenLower(ps), 64), l), SLt(l, BVu(1<<40, 64))))
+		low := textLenLower(ps)
+		st.assumeT(And(SLe(BVu(low, 64), l), SLt(l, BVu(1<<40, 64))))
+		// abstract (recursive spec) pieces: one unfolding gives a guarded lower bound of their length, which is
+		// what decides "never empty" for texts that end in such a piece
+		for _, p := range ps {
+			if p.K != "app" {
+				continue
+			}
+			e.installUnfold(st)
+			if alts, ok := unfoldHook(p); ok {
+				for _, al := range alts {
+					if extra := textLenLower(normText(al.P)); extra > 0 {
+						st.assumeT(Implies(al.Cond, SLe(BVu(low+extra, 64), l)))
+					}
+				}
+			}
+		}
 	}
 	s := SliceV{Base: base, Off: BVu(0, 64), Len: l, Cap: l, Elem: types.Typ[types.Uint8], Str: str}
 	st.text[base.String()] = ps
@@ -292,7 +331,7 @@ func (e *Engine) libCall(st *State, fr *Frame, name string, args []Val, c *ssa.C
 		zero := BVu(0, 64)
 		st.assumeT(And(SLe(zero, k), SLe(k, s.Len)))
 		st.assumeT(Implies(Not(Eq(k, zero)), Not(Eq(st.readByte(s, Sub(k, BVu(1, 64))), cb))))
-		j := Sym(fresh("j"), 64)
+		j := BoundVar(fresh("j"), 64)
 		st.assumeT(Forall(j, Implies(And(SLe(k, j), SLt(j, s.Len)), Eq(Select(st.arrOf(s.Base), Add(s.Off, j), 8), cb))))
 		return one(SliceV{Base: s.Base, Off: s.Off, Len: k, Cap: s.Cap, Elem: s.Elem})
 	case "time.Unix":
@@ -474,12 +513,14 @@ func (e *Engine) ufVal(st *State, t types.Type, prefix string, args []*Term) Val
 	switch u := t.Underlying().(type) {
 	case *types.Slice:
 		sl := SliceV{Base: mk("base", 64), Off: mk("off", 64), Len: mk("len", 64), Cap: mk("cap", 64), Elem: u.Elem()}
+		sl.Base.Pre = true
 		st.assumeT(And(ULt(sl.Base, alloc0), SLe(zero, sl.Off), SLt(sl.Off, lim), SLe(zero, sl.Len), SLe(sl.Len, sl.Cap), SLt(sl.Cap, lim)))
 		return sl
 	case *types.Basic:
 		if isString(t) {
 			sl := SliceV{Base: mk("base", 64), Off: mk("off", 64), Len: mk("len", 64), Elem: types.Typ[types.Uint8], Str: true}
 			sl.Cap = sl.Len
+			sl.Base.Pre = true
 			st.assumeT(And(ULt(sl.Base, alloc0), SLe(zero, sl.Off), SLt(sl.Off, lim), SLe(zero, sl.Len), SLt(sl.Len, lim)))
 			return sl
 		}
@@ -570,17 +611,10 @@ func (e *Engine) applyContract(st *State, fr *Frame, callee *ssa.Function, args 
 	st.cut = true
 	var ret []Val
 	for k := 0; k < res.Len(); k++ {
-		n := len(st.pc)
+		// results are not known to be pre-existing memory
+		st.noPre = true
 		v := st.freshVal(res.At(k).Type(), "ret_"+callee.Name())
-		// results are not known to be pre-existing memory: drop the "base < alloc0" style assumptions
-		var kept []*Term
-		for _, c := range st.pc[n:] {
-			if c.Op == "bvult" && len(c.Args) == 2 && c.Args[1] == alloc0 {
-				continue
-			}
-			kept = append(kept, c)
-		}
-		st.pc = append(st.pc[:n], kept...)
+		st.noPre = false
 		ret = append(ret, v)
 	}
 	cargs := append(append([]Val{}, args...), ret...)
